@@ -70,6 +70,9 @@ STEPS = [
     ("cat", "length", {"quantity_type": "length", "override": True, "min_value": "lo", "default_value": "d"}),
     ("cat", "length", {"quantity_type": "time", "override": True}),
     ("cat", "c3", {"quantity_type": "time"}), ("cat", "c3", {"quantity_type": "time", "default_unit": "s"}), ("cat", "length", {"quantity_type": "time"}),
+    ("cat", "c1", {"quantity_type": "length", "min_value": "lo", "default_value": float("nan")}), ("cat", "c1", {"quantity_type": "length", "max_value": "hi", "default_value": float("nan")}),
+    ("cat", "c1", {"quantity_type": "length", "min_value": "lo", "max_value": "hi", "default_value": float("nan"), "is_max_exclusive": True}),
+    ("cat", "depth", {"quantity_type": "length", "override": True, "min_value": "lo", "default_value": float("nan")}),
 ]
 POSC_STEPS = [
     ("cat", "c1", {"quantity_type": "volume flow rate", "default_unit": "1000ft3/d"}), ("cat", "c1", {"quantity_type": "volume flow rate", "valid_units": ["M(ft3)/d", "m3/s"]}),
@@ -187,6 +190,8 @@ class Model:
             du = FixUnitIfIsLegacy(du)[1]
             if du not in units:
                 return False, None
+        if isinstance(dv, float) and dv != dv and (mn is not None or mx is not None):
+            return False, None  # a NaN default value satisfies no limit
         if dv is None:
             if emin or emax:
                 return False, None
@@ -230,6 +235,12 @@ def build_pre(pre):
 
 
 def wellformed(db, model, V):
+    # read-only queries without an argument first (they must not touch the per-type lists they are assembled from)
+    db.GetUnits(), db.GetInfos(), db.GetUnits(), db.GetQuantityTypes()
+    return _wellformed(db, model, V)
+
+
+def _wellformed(db, model, V):
     """-> list of violated invariants (strings)"""
     from barril.units import Scalar
 
@@ -418,6 +429,8 @@ def props(cfg, T, obs):
                 P.append(("step %d: stored quantity type / valid units / default unit as the model predicts" % n, e["info"] == e["model_info"]))
                 dv, mn, mx, emin, emax = e["limits"]
                 cs = []
+                if isinstance(dv, float) and dv != dv:  # a NaN default value satisfies no limit
+                    cs, mn, mx = ([z3.BoolVal(mn is None and mx is None)], None, None)
                 if mn is not None:
                     cs.append(term(dv) > term(mn) if emin else term(dv) >= term(mn))
                 if mx is not None:
